@@ -43,11 +43,12 @@ MIN_REACH = {
     "failed_grows_with_workers_inside_the_batch": {"quick": 15, "thorough": 150},
     "crops_whose_path_contains_pattern_characters": {"quick": 20, "thorough": 200},
     "reloads_through_load_crops": {"quick": 10, "thorough": 100},
+    "resows_refused_for_their_shape": {"quick": 50, "thorough": 600},
 }
 TIME_BUDGET = {"quick": 300, "thorough": 3000}
 
 OPS = ["grow", "grow", "grow_subset", "grow_missing", "grow_fail", "delete", "corrupt_check", "resow", "reload", "query",
-       "grow_fn", "grow_unpicklable"]
+       "grow_fn", "grow_unpicklable", "resow_refused"]
 
 
 def _is_injected(err):
@@ -353,6 +354,24 @@ def run_case(ctx, case):
                                       dict(sig, oracle="check_bad"))
                         nviol += 1
                     finished -= badset
+                elif op == "resow_refused":
+                    # a re-sow asking for ANOTHER shape (far more batches, or a far smaller batch size) is refused: nothing
+                    # changes on disk, and what this very object reports afterwards is still what is true on disk
+                    kw_ = {"num_batches": B + 2 + case["n"]} if case["batching"] == "num_batches" else \
+                        ({"batchsize": 1} if ctor.get("batchsize", 1) >= 2 else None)
+                    if kw_ is None:
+                        pass        # (batches of one setting: no other size could be refused)
+                    else:
+                      try:
+                        cropkit.sow(crop, dict(w), **kw_)
+                        raise AssertionError("a re-sow with another shape (%s) over a crop of %d batches was accepted" % (kw_, B))
+                      except AssertionError:
+                        raise
+                      except Exception:
+                        ctx.count("resows_refused_for_their_shape")
+                    if sorted(cropkit.batch_files(tmp, name)) != sorted(allb):
+                        ctx.violation(dict(case, at=list(done_hist)), "a refused re-sow changed the batch files", dict(sig, oracle="refused-untouched"))
+                        nviol += 1
                 elif op == "resow":
                     w2 = dict(w)
                     crop2 = crop if rng.random() < 0.5 else xyzpy.Crop(fn=fn, name=name, parent_dir=tmp, **ctor)
